@@ -381,6 +381,8 @@ def _w_setup():
                                    "octave_compile_grammar": CompileGrammarTool})
     if SELFTEST:
         _apply_selftest(SELFTEST)
+    import warnings
+    warnings.simplefilter("ignore")      # re.compile FutureWarning etc. on mutated schema text: stderr noise only
     signal.signal(signal.SIGALRM, _alarm)
     sys.setrecursionlimit(1000)          # CPython default; stated in the assumptions
     _W["tmp"] = None
@@ -450,6 +452,9 @@ def lexparse_one(text):
     """Run the four entry points on one text. -> dict(outcomes=[..4], ntok, failures=[...])"""
     outcomes, failures, ntok = [], [], -1
     for name in ENTRY:
+        if "HANG" in outcomes:           # one hang per text is enough evidence; do not burn 4 x HANG_S
+            outcomes.append("SKIPPED-after-hang")
+            continue
         _W["in_call"] = True
         res = _guarded(_entry(name), text)
         _W["in_call"] = False
@@ -623,6 +628,12 @@ def _classify_tool(tool, args, exc, frames, setup=None):
             meta = ps.parse(content).meta or {}
             if "CONTRACT" in meta and not isinstance(meta.get("TYPE", "UNKNOWN"), str):
                 return "C20-gbnf-contract-nonstring-type"
+        # Path.exists() outside any try: ENAMETOOLONG is not one of the errnos pathlib swallows
+        pth = args.get("target_path") if tool == "octave_write" else args.get("file_path")
+        if tool in ("octave_write", "octave_validate") and isinstance(exc, OSError) and exc.errno == 36 and site is not None \
+                and ".exists()" in site[3] and isinstance(pth, str) \
+                and (any(len(os.fsencode(c)) > 255 for c in pth.split("/")) or len(os.fsencode(pth)) >= 4096):
+            return "C20-path-name-too-long"
         # octave_write re-parses the EXISTING file under `except (LexerError, ParserError)` only
         existing = (setup or {}).get("existing")
         if tool == "octave_write" and isinstance(existing, str) and site is not None and "baseline_content_for_diff" in site[3] \
@@ -659,13 +670,17 @@ def tool_one(tool, args, setup=None):
     json.dumps(result, indent=2) as in mcp/server.py:handle_call_tool."""
     import asyncio
     cls = _W["tools"][tool]
+    hkey = (tool, args.get("content"), (setup or {}).get("existing"))
+    if hkey in _W.setdefault("hung", set()):      # this (tool, content) already hung in this process: do not wait again
+        return {"outcome": "SKIPPED-after-hang", "failure": None}
     real, d = _prep_args(args, setup)
     try:
         _W["in_call"] = True
         res = _guarded(lambda: asyncio.run(cls().execute(**real)))
         _W["in_call"] = False
         if res[0] == "hang":
-            return {"outcome": "HANG", "failure": {"what": f"hang: {tool} did not return within {HANG_S:g} s", "finding": None}}
+            _W["hung"].add(hkey)
+            return {"outcome": "HANG", "failure": {"what": f"hang: {tool} did not return within {HANG_S:g} s", "exc": "hang", "finding": None}}
         if res[0] in ("own", "foreign"):
             e = res[1]
             fr = res[2] if res[0] == "foreign" else _frames(e.__traceback__)
@@ -1008,6 +1023,12 @@ def fixed_calls():
     yield ("octave_validate", {"schema": "META", "file_path": "$TMP/f.txt"}, None)
     yield ("octave_validate", {"schema": "META", "content": "K::v", "profile": "standard"}, None)
     yield ("octave_write", {"target_path": "$TMP/f.oct.md"}, None)
+    yield ("octave_write", {"target_path": "$TMP/" + "a" * 300 + ".oct.md", "content": "K::v"}, None)
+    yield ("octave_validate", {"file_path": "$TMP/" + "a" * 300 + ".oct.md", "schema": "META"}, None)
+    yield ("octave_write", {"target_path": "$TMP/a\x00b.oct.md", "content": "K::v"}, None)
+    yield ("octave_validate", {"file_path": "$TMP/a\x00b.oct.md", "schema": "META"}, None)
+    yield ("octave_write", {"target_path": "", "content": "K::v"}, None)
+    yield ("octave_write", {"target_path": "$TMP", "content": "K::v"}, None)
     yield ("octave_write", {"target_path": "$TMP/f.oct.md", "changes": {"K": 1}}, None)
     yield ("octave_write", {"target_path": "$TMP/f.oct.md", "changes": {"K": 1}, "content": "K::v"}, None)
     yield ("octave_write", {"target_path": "$TMP/f.txt", "content": "K::v"}, None)
@@ -1144,7 +1165,7 @@ def _min_lexparse(f):
 
 def _min_tool(f):
     content = f["args"].get("content")
-    if not isinstance(content, str) or f.get("exc") is None:
+    if not isinstance(content, str) or f.get("exc") in (None, "hang"):
         return None
 
     def pred(t):
